@@ -87,6 +87,11 @@ CLAIMS = {
         technique='z3 regular-language inclusion from the live RE_ENCODING pattern (no length bound); symbolic execution (CrossHair/z3) of read_xml_encoding (str-domain twin regenerated from its source), read_bytes and detect_encoding over documents assembled from symbolic grammar choices',
         text='Language-level facts about the declaration pattern are decided without length bound; the decision order BOM > declaration > meta > default, BOM removal, XML/HTML classification and re-cooking are decided over all combinations of the enumerated grammar choices.',
         note='Trusted: stdlib codecs; CrossHair models; read_xml_encoding is executed as a str-domain twin generated from its current source (bytes literals -> str, decode removed) and pinned to the real bytes function on representatives.'),
+    'C15': dict(
+        engine='S+X', level='model_checking', design_ref='DESIGN.md 4 C15',
+        technique='symbolic execution (CrossHair/z3) of the statement-instrumented real ModuleLoader.build/get against a model file system with symbolic crash step, flushed prefix and two-writer schedule; real digest()/_get_module_name() with an injective hash recorder over symbolic option choices',
+        text='Every crash point x flushed prefix and every interleaving of two writers (bounded schedule) leaves nothing or a complete module under the looked-up name; two configurations differing in one compile-relevant item never share a module file name.',
+        note='Trusted: the model file system (POSIX process-crash semantics), perfect-hash assumption, CrossHair. Interleaving points are inserted by AST instrumentation at check time (no hooks in /repo).'),
     'C03': dict(
         engine='X+Z', level='model_checking', design_ref='DESIGN.md 4 C03',
         technique='symbolic execution (CrossHair/z3) of iter_xml/match_tag/emitters on shape-enumerated character-symbolic strings; z3 regex inclusion from the live lexer pattern',
